@@ -23,6 +23,7 @@ def run(ctx):
     simrules.repeated_key_map_rule(ctx, 'C09.k')
     simrules.homogeneous_moment_predicate_rule(ctx, 'C09.l')
     simrules.configured_duration_first_rule(ctx, 'C09.m')
+    simrules.term_starts_from_stash_rule(ctx, 'C09.o')
     from . import shared as _sh
     _sh.dimension_aware_sizing_rule(ctx, 'C09.n', ['cirq-core/cirq/'], floor=2)
     ctx.decided.append('C09.k a noise model that sets measurements aside by key keeps every measurement of a repeated key')
@@ -52,6 +53,17 @@ def run(ctx):
             return {'<norm>'}
         if isinstance(x, ast.Call) and call_name(x) in ('random', 'random_sample', 'uniform', 'rand'):
             return {'<uniform>'}
+        if isinstance(x, ast.Call) and is_self_attr(x.func) and x.func.attr in bs.methods and x.func.attr != 'apply_channel':
+            # an own method that returns the squared norm of the branch it prepared (or the draw) stands for that value
+            out = set()
+            for r in ast.walk(bs.methods[x.func.attr]):
+                if isinstance(r, ast.Return) and r.value is not None:
+                    for y in ast.walk(r.value):
+                        if isinstance(y, ast.Call) and call_name(y) == 'norm':
+                            out.add('<norm>')
+                        if isinstance(y, ast.Call) and call_name(y) in ('random', 'random_sample', 'uniform', 'rand'):
+                            out.add('<uniform>')
+            return out or None
         return None
     dep = name_deps(ac, {}, source_of=src)
 
